@@ -685,7 +685,7 @@ func (it *Interp) selectOp(fr *frame, x *ssa.Select) Value {
 	if len(r) == 1 {
 		idx = r[0]
 	} else if len(r) > 1 {
-		if it.isModelFn(fr.fn) {
+		if it.isModelFn(fr.fn) || it.cfg.NoSelectFork {
 			// a select inside an environment model: its ready cases are equivalent outcomes by construction
 			// (models test liveness explicitly); take the first in source order instead of forking
 			idx = r[0]
@@ -831,5 +831,21 @@ func (it *Interp) isModelFn(fn *ssa.Function) bool {
 	name := it.prog.Fset.Position(f.Pos()).Filename
 	r := strings.Contains(name, "zz_verif_w_") // world-model files only; harness entry points keep Go's semantics
 	modelFnCache.Store(fn, r)
+	return r
+}
+
+var harnessFnCache sync.Map
+
+// isHarnessFn: any function that comes from an overlaid harness or model file
+func (it *Interp) isHarnessFn(fn *ssa.Function) bool {
+	if v, ok := harnessFnCache.Load(fn); ok {
+		return v.(bool)
+	}
+	f := fn
+	for f.Parent() != nil {
+		f = f.Parent()
+	}
+	r := strings.Contains(it.prog.Fset.Position(f.Pos()).Filename, "zz_verif_")
+	harnessFnCache.Store(fn, r)
 	return r
 }
